@@ -28,6 +28,9 @@ type c03Lists struct {
 	// HandleDDR is the server's dns.handle_ddr setting (not an access list,
 	// but it decides whether _dns.resolver.arpa is answered locally).
 	HandleDDR bool `json:"handle_ddr"`
+	// Trusted is dns.trusted_proxies (nil: not configured; empty: nobody may
+	// speak for another client).
+	Trusted []string `json:"trusted_proxies"`
 }
 
 func (l *c03Lists) canon() string {
